@@ -6,6 +6,7 @@
    X rep k              crash after the first k writes of the history, restart: "best fin readable" or "fail"
    R rep k i            crash after k writes, restart, resume with the blocks from index i on: best fin tallies
    S                    reader view after every step of the history: "best/fin/complete" per step
+   B                    reader view just before every (non-empty) atomic write of the history and at the end
    Q                    number of store writes issued by the read-only queries on the final state
    <blk> ::= id parent score just comm | T (txid tblob rblob mblob)* | C (hash blob)* | S (nid blob)* {; (nid blob)*} |
              A (nid blob)* | N (nid blob)* | K key* | J key*           (numbers in hex)
@@ -134,6 +135,17 @@ let handle line =
         let y' = do_step y st in
         (y', (h y'.y_best ^ "/" ^ h y'.y_fin ^ "/" ^ tok_of_bool (readable y'.y_store y'.y_best)) :: acc)) (y0, []) steps in
     String.concat " " (List.rev outs)
+  | [["B"]] ->
+    (* reader view (published best / finalized, completeness of best) just before every atomic write, and at the end *)
+    let c = !cfg0 in
+    let steps = steps_of c !store0 (List.rev !hist) in
+    let g = c.c_g in
+    let y0 = { y_store = !store0; y_best = g; y_fin = g } in
+    let show y = h y.y_best ^ "/" ^ h y.y_fin ^ "/" ^ tok_of_bool (readable y.y_store y.y_best) in
+    let yl, outs = List.fold_left (fun (y, acc) st ->
+        let acc' = (match st with SWrite [] -> acc | SWrite _ -> show y :: acc | _ -> acc) in
+        (do_step y st, acc')) (y0, []) steps in
+    String.concat " " (List.rev (show yl :: outs))
   | [["Q"]] ->
     let c = !cfg0 in
     let s = run c !store0 (List.rev !hist) in
